@@ -225,6 +225,20 @@ impl Region {
     }
 
     pub fn apply_orientation(self, image_header: &ImageHeader) -> Self {
+        if self.is_empty() {
+            // The corner arithmetic below would turn an empty request into a 2-pixel wide region.
+            let (width, height, _, _) =
+                image_header
+                    .metadata
+                    .apply_orientation(self.width, self.height, 0, 0, true);
+            return Self {
+                left: 0,
+                top: 0,
+                width,
+                height,
+            };
+        }
+
         let image_width = image_header.width_with_orientation();
         let image_height = image_header.height_with_orientation();
         let (_, _, mut left, mut top) = image_header.metadata.apply_orientation(
